@@ -13,6 +13,44 @@ type Printer struct {
 	b      strings.Builder
 	file   string
 	line   int
+	stream []tok
+}
+
+type tok struct {
+	n            *Node
+	kind         byte // 't' text, 'a' action, 'c' comment
+	trimL, trimR bool
+}
+
+const trimSet = " \t\r\n"
+
+// applyTrims computes the effective text of every text node of the file just printed.
+func (pr *Printer) applyTrims() {
+	i := 0
+	for i < len(pr.stream) {
+		if pr.stream[i].kind != 't' {
+			i++
+			continue
+		}
+		j := i
+		var run strings.Builder
+		for j < len(pr.stream) && pr.stream[j].kind == 't' {
+			run.WriteString(pr.stream[j].n.Text)
+			j++
+		}
+		text := run.String()
+		if i > 0 && pr.stream[i-1].kind == 'a' && pr.stream[i-1].trimR {
+			text = strings.TrimLeft(text, trimSet)
+		}
+		if j < len(pr.stream) && pr.stream[j].kind == 'a' && pr.stream[j].trimL {
+			text = strings.TrimRight(text, trimSet)
+		}
+		for k := i; k < j; k++ {
+			pr.stream[k].n.eff, pr.stream[k].n.hasEff = "", true
+		}
+		pr.stream[i].n.eff = text
+		i = j
+	}
 }
 
 func NewPrinter() *Printer { return &Printer{L: "{{", R: "}}", CL: "{*", CR: "*}"} }
@@ -30,6 +68,7 @@ func (pr *Printer) File(f *File) string {
 	pr.b.Reset()
 	pr.file = f.Path
 	pr.line = 1
+	pr.stream = pr.stream[:0]
 	if f.Broken {
 		return "broken " + pr.L + "if" + pr.R + " template"
 	}
@@ -52,6 +91,7 @@ func (pr *Printer) File(f *File) string {
 		ws()
 	}
 	pr.list(f.Body)
+	pr.applyTrims()
 	return pr.b.String()
 }
 
@@ -64,6 +104,7 @@ func (pr *Printer) act(n *Node, inner string) {
 	if n != nil {
 		n.File, n.Line = pr.file, pr.line
 	}
+	pr.stream = append(pr.stream, tok{n: n, kind: 'a', trimL: n != nil && n.TrimL, trimR: n != nil && n.TrimR})
 	l, r := pr.L, pr.R
 	if n != nil && n.TrimL {
 		l += "- "
@@ -115,9 +156,11 @@ func (pr *Printer) node(n *Node) {
 		if strings.Contains(n.Text, pr.L) || strings.Contains(n.Text, pr.CL) || strings.HasSuffix(n.Text, pr.L[:1]) {
 			panic(OutOfModel{"text node would form a delimiter: " + n.Text})
 		}
+		pr.stream = append(pr.stream, tok{n: n, kind: 't'})
 		pr.w(n.Text)
 	case "comment":
 		n.File, n.Line = pr.file, pr.line
+		pr.stream = append(pr.stream, tok{n: n, kind: 'c'})
 		pr.w(pr.CL + n.Text + pr.CR)
 	case "print":
 		pr.act(n, TopExprString(n.E))
